@@ -410,6 +410,12 @@ def nested_if_semantics():
     return guarded("nested-if", run)
 
 
+def jumps_land():
+    # a jump transfers control to the line it names: the label exists exactly where the source line stood (shared with C06)
+    from tx import p_c06
+    return [dict(o, id="jumps/" + o["id"]) for o in p_c06.targets_through_convert()]
+
+
 def independence_shared_with_c05():
     # statements of one line and lines of one program are executed in sequence: each is translated on its own (shared with C05)
     from tx.p_c05 import statement_independence
@@ -454,4 +460,4 @@ def convert_sequencing():
 
 
 def obligations():
-    return next_patcher() + fornext_count() + if_semantics() + if_parse_forms() + condition_coercion() + nested_if_semantics() + independence_shared_with_c05() + prog_sequencing() + convert_sequencing()
+    return next_patcher() + fornext_count() + if_semantics() + if_parse_forms() + condition_coercion() + nested_if_semantics() + independence_shared_with_c05() + jumps_land() + prog_sequencing() + convert_sequencing()
